@@ -18,6 +18,10 @@ def run_p(seed, tier, replay=None):
     for (o, q, i), m in zip(items, model):
         f = q.split(" ")
         jitter = f[4] == "1"
+        if i == "panic":
+            violations.append({"what": f"backoff {q}: the delay iterator of run_test_instance panics (count {f[2]}): the unit dies between attempts, the test is neither retried to its bound nor ever reported finished",
+                               "payload": {"stream": o[:2], "line_index": o[2], "request": q, "impl": i, "spec": m[:200]}, "kind": "backoff-panic"})
+            continue
         a = [] if i == "." else [int(x) for x in i.split(",")]
         b = [] if m == "." else [int(x) for x in m.split(",")]
         if len(b) >= 2: nt.add(q)
@@ -34,7 +38,7 @@ def run_p(seed, tier, replay=None):
     samples = [f"{q}  =>  {i}" for (_, q, i) in items[:5]]
     return {
         "evaluations": len(items), "distinct_nontrivial": len(nt),
-        "rule": "random retry policies: fixed / exponential, count 0-8, delays from 0 to 60 s, with and without max-delay (1-100 x the base), with and without jitter; the real BackoffIter's delays are compared with the closed form (exactly up to 2 ns without jitter, within (d/2, d] with jitter); non-trivial = at least 2 delays",
+        "rule": "random retry policies: fixed / exponential, count 0-8 (and five long chains of 80-1100 retries under a max-delay), delays from 0 to 60 s, with and without max-delay (1-100 x the base), with and without jitter; the real BackoffIter's delays are compared with the closed form (exactly up to 2 ns without jitter, within (d/2, d] with jitter); non-trivial = at least 2 delays",
         "samples": samples, "traces": len(items), "dist": r.dist,
         "violations": violations, "broken": r.broken, "impl_failures": r.impl_failures,
     }
